@@ -53,6 +53,7 @@ CODES = {
          'or its document / distance / score differs from what the shard holds',
     106: 'search results are not globally ordered (by the requested sort keys, or by hybrid score descending)',
     107: 'exact regime (all shards available, no offset, total matches <= per-shard limit): a matching point is missing',
+    109: 'a collection that lives in one shard, no sort keys, no paging, every server up: the cluster answer is not the shard\'s answer in the shard\'s order (composite of a ranking sub-query and a filter: ranked points first, then the points only the filter matched)',
     108: 'an operation failed (error / failed ranges) although every shard server was available',
     201: 'search: the number of rows, or the sort-key / hybrid class at some position, differs from the model cluster_search '
          '(per-shard limit and offset rewriting, merge, cut) applied to the shard contents',
@@ -97,3 +98,5 @@ LEVEL = {
 CFG['rule'] = CFG['rule'] + ' ' + 'Closing a server also shuts the RPC clients the other nodes have cached for it (what a process death leaves behind); the first search / update / search after a close go through the same entry node as before it, then the history switches to a node without cached clients.'
 
 CFG['rule'] = CFG['rule'] + ' ' + "The stream on curateFailedPoints has requests of distinct ids with 0..70 processed ones (15/16/17, 31/32/33, 63/64/65 over-weighted) in arbitrary order. The nodes' shard-manager root differs from the node root."
+
+CFG['rule'] = CFG['rule'] + ' ' + 'CPass: on a collection that lives in one shard, a composite of a weighted vector sub-query and a filter (no sort keys, no paging) is asked at the cluster and at the shard before every group of searches: same points, same order (code 109).'
